@@ -300,6 +300,19 @@ pub fn run_case(tape: &mut Tape, _tier: Tier, _p: &CaseParams) -> CaseOutcome {
         return out;
       }
     }
+    if let Some((spec, to, td)) = jsr_redirect_difference(&built.obs, &b2.obs) {
+      out.violation(
+        "C18",
+        "segment-equals-direct-build",
+        "segment-vs-direct:jsr-version-selection-differs",
+        format!(
+          "{} redirects to {} in the original graph (kept by the segment) and to {} in a direct build of {:?}",
+          spec, to, td, roots
+        ),
+        ctx(json!({"segment_roots": roots, "spec": spec})),
+      );
+      return out;
+    }
     let a = structure_of(&sshape);
     // entries of the direct build that nothing reaches (their importer turned
     // into an error after its dependencies were visited) are C01's business
